@@ -301,6 +301,14 @@ def make_query(case):
 
     q = dns.message.make_query(case["qname"], case["qtype"])
     q.id = case["qid"]
+    if case.get("two_q"):
+        # a query carrying two different questions: a response must carry both
+        import dns.rrset
+        import dns.name
+        import dns.rdataclass
+        import dns.rdatatype
+
+        q.question.append(dns.rrset.RRset(dns.name.from_text("second." + case["qname"]), dns.rdataclass.IN, dns.rdatatype.A))
     return q
 
 
@@ -397,6 +405,17 @@ def build_datagram(q, qwire, kind, arg, marker, rng_bytes):
         b = bytearray(g[:qlen] + extra + g[qlen:])
         b[4:6] = struct.pack("!H", 2)
         return bytes(b)
+    if kind == "dup_question":
+        # as many questions as the query has, but the first one repeated instead of the others
+        import dns.message as _m
+
+        one = _m.Message(id=0)
+        one.question = [q.question[0]]
+        len1 = len(one.to_wire()) - 12
+        nq = len(q.question)
+        b = bytearray(g[:12] + g[12 : 12 + len1] * nq + g[qlen:])
+        b[4:6] = struct.pack("!H", nq)
+        return bytes(b)
     if kind == "noq_noerror":
         return struct.pack("!HHHHHH", q.id, 0x8000, 0, 0, 0, 0)
     if kind == "icmp":
@@ -409,7 +428,7 @@ def build_datagram(q, qwire, kind, arg, marker, rng_bytes):
 UDP_KINDS = [
     "genuine", "genuine", "wrong_id", "not_response", "wrong_opcode", "wrong_qtype", "wrong_qclass", "wrong_qname",
     "qname_case", "garbage", "cut", "bitflip", "trailing", "rcode_noq", "rcode_noq_nx", "rcode_noq_ext", "tc_genuine", "tc_forged",
-    "tc_cut", "tc_trailing", "icmp", "empty", "forged_addr", "forged_port", "textual", "mcast_other", "extra_question", "noq_noerror", "forged_scope", "forged_flow",
+    "tc_cut", "tc_trailing", "icmp", "empty", "forged_addr", "forged_port", "textual", "mcast_other", "extra_question", "dup_question", "noq_noerror", "forged_scope", "forged_flow",
 ]
 
 
@@ -427,6 +446,7 @@ def gen_case(seed, tier):
         "qtype": rng.choice(["A", "A", "TXT"]),
         "qid": rng.randrange(65536),
         "timeout": rng.choice([2.0, 2.0, 0.5, 5.0]),
+        "two_q": rng.random() < 0.12,
     }
     if r < 0.03:
         base["kind"] = "tick"
@@ -484,6 +504,9 @@ def gen_case(seed, tier):
         base["max_recv"] = [rng.choice([1, 2, 3, 7, 100]) for _ in range(rng.choice([0, 0, 5, 40]))]
         base["ignore_trailing"] = rng.random() < 0.2
         base["tie_at_deadline"] = rng.random() < 0.12
+        if rng.random() < 0.04:
+            base["big_frame"] = rng.choice([32767, 32768, 32768, 40000, 65535])
+            base["all_single"] = False
         return base
     if r < 0.9:
         base["kind"] = "tcp_send"
@@ -867,8 +890,28 @@ def _chunks(stream, cuts, gaps, all_single):
     return out
 
 
+def pad_to(w, size):
+    """The genuine reply w grown to exactly `size` octets by one TXT record in the additional section."""
+    room = size - len(w) - 12
+    if room < 2:
+        return w
+    rdata = bytearray()
+    while room - len(rdata) >= 256:
+        rdata += b"\xff" + b"p" * 255
+    rest = room - len(rdata)
+    if rest >= 1:
+        rdata += bytes([rest - 1]) + b"p" * (rest - 1)
+    rr = b"\xc0\x0c" + struct.pack("!HHIH", 16, 1, 60, len(rdata)) + bytes(rdata)
+    b = bytearray(w + rr)
+    b[10:12] = struct.pack("!H", struct.unpack("!H", w[10:12])[0] + 1)
+    return bytes(b)
+
+
 def _tcp_recv_script(case, q):
     wires = [genuine_wire(q, i) for i in range(case["nmsg"])]
+    if case.get("big_frame"):
+        # a message in the upper half of what the 16-bit length prefix can announce
+        wires[-1] = pad_to(wires[-1], case["big_frame"])
     frames = [len(w).to_bytes(2, "big") + w for w in wires]
     if case.get("zero_frame"):
         frames.insert(min(1, len(frames)), b"\x00\x00")
